@@ -124,6 +124,7 @@ Observe ==
                mentions |-> Mentions(Root), reads |-> TemplateReads(Root, o),
                restrict |-> LET k == KeysOf(Root, o) IN IF k.ok THEN Restrict(o, k.ks) ELSE EmptyD,
                permit |-> Permit(Root, o), dem |-> Dem(Root, o),
+               valruns |-> LET vr == ValRuns(Root, o) IN vr \cup {BaseOf(m) : m \in vr},
                swallows |-> Swallows(Root, o) \/ LET k == KeysOf(Root, o) IN k.ok /\ Swallows(Root, Restrict(o, k.ks)),
                visited |-> {x.n : x \in Visit(Root, o)} \cup {BaseOf(x.n) : x \in Visit(Root, o)},
                raises |-> Raises, hist |-> hist,
